@@ -58,6 +58,23 @@ def programs(np_):
                                                         S(op="close", setup=1), S(op="open", path="a.nc", omode=["NOWRITE"]),
                                                         S(op="get", v=1, form="vara", mode="coll", itype="int", start=[0, 0], count=[1, W], n=W),
                                                         S(op="close")]
+    # independent transfers that go through the library's packing buffer: one wait completing several pending requests whose
+    # buffers are not adjacent (aggregated buffer type is hindexed), and flexible calls with a non-contiguous buffer type on
+    # a variable that needs neither conversion nor byte swap
+    r0 = {"ranks": [0]}
+    P["indep_nb_two"] = base + [S(op="enddef"), S(op="begin_indep"),
+                                S(op="put", kind="i", req="a", v=1, form="vara", itype="int", start=[0, 0], count=[1, W], vals=[1, 2, 3, 4], **r0),
+                                S(op="put", kind="i", req="b", v=0, form="vara", itype="int", start=[1], count=[3], vals=[5, 6, 7], **r0),
+                                S(op="wait", mode="indep", reqs=["a", "b"], **r0),
+                                S(op="get", kind="i", req="g", v=1, form="vara", itype="int", start=[0, 0], count=[1, W], n=W, **r0),
+                                S(op="get", kind="i", req="h", v=0, form="vara", itype="int", start=[0], count=[2], n=2, **r0),
+                                S(op="wait", mode="indep", reqs=["g", "h"], **r0),
+                                S(op="end_indep"), S(op="close")]
+    basec = base + [S(op="def_var", name="C", xtype="char", dims=[2])]
+    P["indep_flex_noncontig"] = basec + [S(op="enddef"), S(op="begin_indep"),
+                                         S(op="put", v=3, form="vara", mode="indep", itype="text", flex={"layout": "vector"}, start=[1], count=[4], vals=[65, 66, 67, 68], **r0),
+                                         S(op="get", v=3, form="vara", mode="indep", itype="text", flex={"layout": "vector"}, start=[0], count=[5], n=5, **r0),
+                                         S(op="end_indep"), S(op="close")]
     return P
 
 
